@@ -274,12 +274,12 @@ package z
 //@   loop 1 invariant #idx 0 <= left && left <= right && right <= N && N == old(GcNumKeys(n)) && N <= maxKeys && mk == old(ite(GcNumKeys(n) > 0, GcKey(n, GcNumKeys(n)-1), GcKey(n, 0)))
 //@   loop 1 invariant #meta n[2*maxKeys] == old(n[2*maxKeys]) && n[2*maxKeys+1] == old(n[2*maxKeys+1])
 //@   loop 1 invariant #rest forall i int :: right <= i && i < maxKeys ==> GcKey(n, i) == old(GcKey(n, i)) && GcVal(n, i) == old(GcVal(n, i))
-//@   loop 1 invariant #kept forall i int :: 0 <= i && i < left ==> GcKey(n, i) != 0 && (GcVal(n, i) >= lo || GcKey(n, i) == mk) && exists j int :: i <= j && j < right && GcKey(n, i) == old(GcKey(n, j)) && GcVal(n, i) == old(GcVal(n, j))
+//@   loop 1 invariant #kept forall i int :: 0 <= i && i < left ==> GcKey(n, i) != 0 && (GcVal(n, i) >= lo || (GcKey(n, i) == mk && GcVal(n, i) == 0)) && exists j int :: i <= j && j < right && GcKey(n, i) == old(GcKey(n, j)) && (GcVal(n, i) == old(GcVal(n, j)) || GcVal(n, i) == 0)
 //@   loop 1 invariant #sorted forall i, j int :: 0 <= i && i < j && j < left ==> GcKey(n, i) < GcKey(n, j)
 //@   loop 1 invariant #below forall i int :: 0 <= i && i < left ==> forall j int :: right <= j && j < N ==> GcKey(n, i) < old(GcKey(n, j))
 //@   ensures [C10] #wf GcWfNode(n)
-//@   ensures [C10] #kept forall i int :: 0 <= i && i < GcNumKeys(n) ==> GcVal(n, i) >= lo || GcKey(n, i) == old(ite(GcNumKeys(n) > 0, GcKey(n, GcNumKeys(n)-1), GcKey(n, 0)))
-//@   ensures [C10] #subset forall i int :: 0 <= i && i < GcNumKeys(n) ==> exists j int :: 0 <= j && j < old(GcNumKeys(n)) && GcKey(n, i) == old(GcKey(n, j)) && GcVal(n, i) == old(GcVal(n, j))
+//@   ensures [C10] #kept forall i int :: 0 <= i && i < GcNumKeys(n) ==> GcVal(n, i) >= lo || (GcVal(n, i) == 0 && GcKey(n, i) == old(ite(GcNumKeys(n) > 0, GcKey(n, GcNumKeys(n)-1), GcKey(n, 0))))
+//@   ensures [C10] #subset forall i int :: 0 <= i && i < GcNumKeys(n) ==> exists j int :: 0 <= j && j < old(GcNumKeys(n)) && GcKey(n, i) == old(GcKey(n, j)) && (GcVal(n, i) == old(GcVal(n, j)) || GcVal(n, i) == 0)
 //@   ensures [C10] #meta n[2*maxKeys] == old(n[2*maxKeys]) && n[2*maxKeys+1]&0xFFFFFFFF00000000 == old(n[2*maxKeys+1])&0xFFFFFFFF00000000
 //@   ensures [C10] #count result == 0 || result == GcNumKeys(n)
 
